@@ -16,8 +16,11 @@ STRICT = os.environ.get("VERIF_C17_STRICT") == "1"
 PATCH = {"src/search.c": [(r"\nint\nvbi_search_next\(vbi_search \*search, vbi_page \*\*pg, int dir\)",
                            "\nvbi_search_status\nvbi_search_next(vbi_search *search, vbi_page **pg, int dir)")]}
 
-# walk obligation only: page slice of 2 text rows (see h_c17.c); -DLAST_ROW=3
-PATCH_WALK = {"src/search.c": PATCH["src/search.c"] + [(r"#define LAST_ROW 24", "#ifndef LAST_ROW\n#define LAST_ROW 24\n#endif")]}
+# walk obligation only: the callbacks are cut at the comment "To Unicode" (after stop tests, LOP filter, format call): return c17_cut(...)
+CUT = "\t{ extern int c17_cut(vbi_search *, cache_page *, int, int, int); return c17_cut(s, vtp, %s, start, %s); }\n"
+PATCH_WALK = {"src/search.c": PATCH["src/search.c"] + [
+    (r"\t/\* To Unicode \*/\n\n(\thp = s->haystack;\n\tfirst = hp;)", (CUT % ("_this", "+1")).replace("\\", "\\\\") + r"\1"),
+    (r"\t/\* To Unicode \*/\n\n(\thp = s->haystack;\n\trow = \(this == start\))", (CUT % ("this", "-1")).replace("\\", "\\\\") + r"\1")]}
 
 STUBS = ["_vbi_cache_foreach_page = harness model: walks the cached subset of a sorted universe of NP pages in cyclic (pgno, subno) order from the "
          "given position, `wrapped' after the page number wrapped, stops when the callback returns non-zero, 0 when nothing is cached",
@@ -37,10 +40,11 @@ def obligations(tier, seed):
                  "origin of the pass, each once per pass, NOT_FOUND when none is left (then the pass restarts), CACHE_EMPTY iff nothing is cached, "
                  "direction change = new pass from the cursor")
     us = {"ure_compile.0": 17, "strchr.0": 31, "ucs2_strlen.0": 3, "search_page_rev.2": 3}
+    us_hay = dict(us)
     obs = [
         Ob("walk", func="h_c17_walk", desc=walk_desc,
            encodes=["vbi_search_new", "vbi_search_next", "search_page_fwd", "search_page_rev", "highlight", "vbi_search_delete"],
-           defines=dict(LAST_ROW=3, **known), unwind=42, unwindset=us, patch=PATCH_WALK,
+           defines=dict(known), unwind=12, unwindset=us, patch=PATCH_WALK,
            grid=[dict(NP=n, NCALLS=3, DIRS=d, OCC=o) for n in (2, 3) for d in range(8) for o in (0, 80)] +
                 [dict(NP=1, NCALLS=4, DIRS=d, OCC=41) for d in (0, 5, 10, 15)] + [dict(NP=2, NCALLS=4, DIRS=d, OCC=39) for d in (0, 3, 6, 9, 15)],
            quick_grid=[dict(NP=2, NCALLS=3, DIRS=d, OCC=o) for (d, o) in ((7, 0), (0, 80), (5, 41), (2, 39), (3, 0), (4, 80))] + [dict(NP=1, NCALLS=4, DIRS=15, OCC=0)],
@@ -65,7 +69,7 @@ def obligations(tier, seed):
            desc="haystack construction of search_page_fwd (through vbi_search_next on a one-page cache): rows 1..23, columns 0..39 in order, one character per "
                 "normal/double-height/double-width/double-size cell, continuation cells (OVER_TOP/OVER_BOTTOM/DOUBLE_HEIGHT2/DOUBLE_SIZE2) skipped, one "
                 "separator 0x000A per row, total length as computed and within the haystack buffer; matcher run once on the whole text",
-           encodes=["search_page_fwd", "vbi_search_next", "vbi_search_new"], defines={"NP": 1, "HC": 3}, unwind=42, unwindset=us, patch=PATCH,
+           encodes=["search_page_fwd", "vbi_search_next", "vbi_search_new"], defines={"NP": 1, "HC": 3}, unwind=42, unwindset=us_hay, patch=PATCH,
            bounds="rows 1 and 2 symbolic at columns 0..2, 39, 40 (size attribute, unicode, all other attributes), rest of the page blank",
            assumes=["documented vbi_page invariant (format.h, vbi_size): the right neighbour of a DOUBLE_WIDTH/DOUBLE_SIZE cell is an OVER_TOP cell with the same unicode"],
            outside="search_page_rev's copy of the same loop (covered only through the walk obligation on blank pages)",
